@@ -258,3 +258,25 @@ def rand_mixture_spec(rng, kind=None):
     tot = sum(x0)
     x0 = [x / tot for x in x0]
     return sps, x0, kind
+
+
+def species_full(sp):
+    """every attribute (thermodynamic, transport and radiation data), JSON-able"""
+    def conv(v):
+        if hasattr(v, "tolist"):
+            return v.tolist()
+        if isinstance(v, (list, tuple)):
+            return [conv(x) for x in v]
+        return v
+    d = {k: conv(v) for k, v in sp.__dict__.items()}
+    d["__class__"] = type(sp).__name__
+    return d
+
+
+def species_from_full(d):
+    cls = getattr(_sp, d["__class__"])
+    sp = object.__new__(cls)
+    for k, v in d.items():
+        if k != "__class__":
+            setattr(sp, k, v)
+    return sp
